@@ -90,7 +90,21 @@ Definition handled (t : triple) : bool :=
   | Some _, (FMatmul | FImatmul), ONone => false
   | _, _, _ => true
   end.
+(** The in-place protocol (round 4).  `l @= r` on a supported pair: when the class of [l] is MUTABLE the object the
+    operator was applied to must itself be returned (so that every alias of it sees the product: together with the [IdL]
+    clause of [triple_ok] its final value is the specification product); when it is frozen / a tuple the result must be a
+    new object (and, by the [IdFresh] clause of [triple_ok], nothing is stored into the receiver).  [triple_ok] alone
+    accepted a mutable receiver that quietly falls back to the fresh result of `@` - `for a in angles: a @= m` would then
+    leave the list as it was. *)
+Definition inplace_ok (t : triple) : bool :=
+  match t_form t, expected (t_l t) (t_r t) (t_alias t), t_out t with
+  | FImatmul, Some _, OValue _ i _ _ _ =>
+      match i with IdL => mutable (t_l t) | IdFresh => negb (mutable (t_l t)) | IdR => false end
+  | _, _, _ => true
+  end.
 Definition rows_of (f : form) (tbl : list triple) := filter (fun t => form_eqb f (t_form t)) tbl.
-Definition table_ok (tbl : list triple) : bool := forallb triple_ok tbl && forallb handled tbl && covered tbl.
+Definition rows_mut (m : bool) (tbl : list triple) := filter (fun t => Bool.eqb m (mutable (t_l t))) (rows_of FImatmul tbl).
+Definition table_ok (tbl : list triple) : bool :=
+  forallb triple_ok tbl && forallb handled tbl && covered tbl && forallb inplace_ok tbl.
 Definition failing (tbl : list triple) : list (form * cls * cls * bool) :=
-  map (fun t => (t_form t, t_l t, t_r t, t_alias t)) (filter (fun t => negb (triple_ok t && handled t)) tbl).
+  map (fun t => (t_form t, t_l t, t_r t, t_alias t)) (filter (fun t => negb (triple_ok t && handled t && inplace_ok t)) tbl).
